@@ -309,6 +309,8 @@ pub fn check(tier: &str, exe: &Path, mt_exe: Option<&Path>) -> i32 {
         "fault_fired.reset",
         "op.opassign_equiv",
         "op.bulk_set",
+        "op.bulk_failed_calls",
+        "op.big_strings",
         "op.reset_context_map_macro",
         "op.set_function",
         "op.call_function",
